@@ -569,6 +569,31 @@ func checkShare(vd *Verdict, v *prioView) {
 		limit = 1 << 62
 	}
 
+	// saturation through blocked writers: the premise "data waiting continuously" is
+	// checked, not assumed - it ends with the first poll that found an input empty
+	smallCap := false
+
+	for _, in := range sc.Inputs {
+		if in.Writers > 0 {
+			smallCap = true
+		}
+	}
+
+	if smallCap {
+		for _, r := range v.res.Hist {
+			if r.Kind == simrt.KSelDefault && r.Lib && strings.HasPrefix(r.ChName, "in[") {
+				if r.Seq < limit {
+					limit = r.Seq
+					vd.probe("saturation-ended-by-an-empty-poll")
+				}
+
+				break
+			}
+		}
+
+		vd.probe("saturation-by-blocked-writers")
+	}
+
 	evs := v.flight()
 	ei := 0
 
@@ -580,6 +605,15 @@ func checkShare(vd *Verdict, v *prioView) {
 		}
 
 		for i, in := range sc.Inputs {
+			if in.Writers > 0 {
+				// once fewer items than writers remain, writers start to finish
+				if consumed[i] >= in.Total-in.Writers-in.Cap {
+					return true
+				}
+
+				continue
+			}
+
 			if consumed[i] >= in.Prefill {
 				return true
 			}
@@ -630,7 +664,20 @@ func checkShare(vd *Verdict, v *prioView) {
 			}
 		}
 
-		if m.T-lastRel < int64(40+4*sc.H)*max(1, sc.Unit) {
+		// time the discipline's goroutine was held up by injected stalls does not count
+		stalled := int64(0)
+
+		for _, r := range v.res.Hist {
+			if r.Seq > m.Seq {
+				break
+			}
+
+			if r.Kind == simrt.KNote && r.Note == "sim-stall" && r.T >= lastRel {
+				stalled += r.Val
+			}
+		}
+
+		if m.T-lastRel-stalled < int64(40+4*sc.H)*max(1, sc.Unit) {
 			vd.probe("mark-too-early-to-judge")
 			continue
 		}
